@@ -284,6 +284,78 @@ def _drop_prefix(path, prefix):
     return out
 
 
+
+
+def ref_place(fn, operand, limit=12):
+    """the storage a reference operand designates, as (base local, tuple of field indices): follows copies of the reference,
+    reborrows and field projections (`&mut (*self_).data` with self_ = &mut message  ->  (message, (1,))).  A by-value
+    operand designates itself.  None when a step is not a plain borrow/copy."""
+    pl = op_place(operand)
+    if pl is None:
+        return None
+    l = pl["l"]
+    path = tuple(e["f"] for e in pl.get("p", []) if isinstance(e, dict) and "f" in e)
+    for _ in range(limit):
+        ty = fn.local_ty(l)
+        if not (ty.startswith("&") or ty.startswith("*")):
+            return (l, path)
+        ds = [d for d in fn.defs().get(l, []) if not fn.is_cleanup(d[0]) and not (d[1] is not None and d[2].get("lhs", {}).get("p"))]
+        if len(ds) != 1:
+            return (l, path)
+        b, si, node = ds[0]
+        if si is None:
+            tr = transparent(node)
+            if tr is not None and node["args"] and op_place(node["args"][tr[0]]) is not None:
+                a = node["args"][tr[0]]["pl"]
+                path = tuple(e["f"] for e in a.get("p", []) if isinstance(e, dict) and "f" in e) + path
+                l = a["l"]
+                continue
+            return (l, path)
+        rv = node["rv"]
+        if rv["r"] in ("ref", "raw"):
+            src = rv["pl"]
+        elif rv["r"] in ("use", "cast") and op_place(rv["a"][0]) is not None:
+            src = rv["a"][0]["pl"]
+        else:
+            return (l, path)
+        path = tuple(e["f"] for e in src.get("p", []) if isinstance(e, dict) and "f" in e) + path
+        l = src["l"]
+    return (l, path)
+
+
+def value_reaches_place(fn, src_local, key, limit=200):
+    """is the value created in `src_local` moved (through temporaries, struct construction and whole-struct moves) into the place `key` = (local, field path)?"""
+    seen = set()
+    work = [(src_local, ())]
+    while work and len(seen) < limit:
+        cur = work.pop()
+        if cur in seen:
+            continue
+        seen.add(cur)
+        if cur == key:
+            return True
+        l, path = cur
+        for b in fn.live_blocks():
+            for st in fn.stmts(b):
+                if st["s"] != "assign" or st["lhs"].get("p"):
+                    continue
+                rv = st["rv"]
+                if rv["r"] in ("use", "cast"):
+                    sp = op_place(rv["a"][0])
+                    if sp is not None and sp["l"] == l:
+                        spath = tuple(e["f"] for e in sp.get("p", []) if isinstance(e, dict) and "f" in e)
+                        if path[:len(spath)] == spath:
+                            work.append((st["lhs"]["l"], path[len(spath):]))
+                        elif not path and not spath:
+                            work.append((st["lhs"]["l"], ()))
+                elif rv["r"] == "agg":
+                    for i, a in enumerate(rv["a"]):
+                        ap = op_place(a)
+                        if ap is not None and ap["l"] == l and not ap.get("p"):
+                            work.append((st["lhs"]["l"], (i,) + path))
+    return False
+
+
 # ----------------------------------------------------------------------------- expressions
 
 class Expr:
@@ -458,6 +530,17 @@ def switch_labels(fn, b):
         ds = [x for x in fn.defs().get(l, []) if not fn.is_cleanup(x[0])]
         if len(ds) == 1:
             d = ds[0]
+    # a bool that is a plain copy of another single-definition bool (the result of an inlined predicate helper): look at the original
+    hops = 0
+    while d is not None and d[1] is not None and not d[2]["lhs"].get("p") and d[2]["rv"]["r"] == "use" and hops < 4:
+        src = op_place(d[2]["rv"]["a"][0])
+        if src is None or src.get("p") or fn.local_ty(src["l"]) != "bool":
+            break
+        ds2 = [x for x in fn.defs().get(src["l"], []) if not fn.is_cleanup(x[0])]
+        if len(ds2) != 1:
+            break
+        d = ds2[0]
+        hops += 1
     if d is not None and d[1] is not None and not d[2]["lhs"].get("p"):
         rv = d[2]["rv"]
         if rv["r"] == "discr":
